@@ -49,6 +49,7 @@ func main() {
 				}
 				if o.Blocked {
 					r.Blocked++
+					break // one blocked run is a fact; do not wait for more time-outs
 				}
 				if o.Unclosed {
 					r.Unclosed++
